@@ -663,6 +663,13 @@ func (m *PktModel) recvProbes(w *world.World, g Ghost, p packettypes.Packet, at 
 		q.DestinationChain = t
 		add("dest-replaced", q, world.ProvingChainForRecv(q, at), ckey(p), 0, nil)
 		add("dest-replaced-own-key", q, world.ProvingChainForRecv(q, at), ckey(q), 0, nil)
+		if p.DestinationChain == at && p.RelayChain == "" {
+			// a packet sent directly to this chain presented as one this chain should forward: destination replaced by a third
+			// chain and this chain named as relay, with the source's genuine proof of the direct packet
+			q = p
+			q.DestinationChain, q.RelayChain = t, at
+			add("dest-replaced-and-relay=self", q, p.SourceChain, ckey(p), 0, nil)
+		}
 		q = p
 		q.SourceChain = t
 		add("source-replaced", q, world.ProvingChainForRecv(q, at), ckey(p), 0, nil)
